@@ -14,7 +14,8 @@ Decided (structural necessary conditions):
              and advances the previous objective; the returned object is that model
   TR-cover   the returned trace prefix covers the last index written (start + one per epoch)
   SMP-cnt    (E4a) every sampler returns subscripts, values and weights with equal symbolic row counts
-  SMP-wt     stratified(): weight of a drawn nonzero = data.nnz / drawn nonzeros, of a drawn zero = (prod(shape) - data.nnz) / drawn zeros
+  SMP-wt     stratified(): weight of a drawn nonzero = data.nnz / drawn nonzeros, of a drawn zero = (prod(shape) - data.nnz) / drawn zeros;
+             semistrat(): data.nnz / drawn nonzeros and prod(shape) / drawn (the second block is drawn from all entries)
   SMP-lin    linear indices computed by hand in a sampler (subs @ cumprod(..shape..)) use tt_sub2ind's numbering: strides
              cumprod((1,) + shape[:-1]); no such site on the reviewed tree (fixtures keep the rule alive)
   SMP-val    values reported for drawn zeros are zeros, values of drawn nonzeros are gathered with
@@ -655,45 +656,93 @@ def smp_cnt(prog: Program, res: Result) -> None:
                     f"the zero block of the values is {ast.unparse(d) if d is not None else 'undefined'}")
 
 
+def _weight_coefficient(fi, name: str):
+    """The scalar every entry of the weight vector `name` ends up with, as an expression: the vector is np.ones(..) (times a scalar, or np.full
+    with it) and may be scaled in place afterwards.  None when it is built any other way."""
+    def ones(e):
+        return isinstance(e, ast.Call) and (dotted(e.func) or "").split(".")[-1] in ("ones", "ones_like")
+    factors: List[ast.expr] = []
+    first = None
+    n_def = 0
+    for n in ast.walk(fi.node):
+        if isinstance(n, ast.Assign) and len(n.targets) == 1 and isinstance(n.targets[0], ast.Name) and n.targets[0].id == name:
+            n_def += 1
+            v = n.value
+            first = first or n
+            if ones(v):
+                continue
+            if isinstance(v, ast.Name) and v.id != name:
+                # a plain re-naming of a vector built under another name (e.g. by an inlined helper)
+                sub, at = _weight_coefficient(fi, v.id)
+                if sub is None:
+                    return None, None
+                factors.append(sub)
+                first = at
+                continue
+            if isinstance(v, ast.BinOp) and isinstance(v.op, ast.Mult) and (ones(v.left) or ones(v.right)):
+                factors.append(v.right if ones(v.left) else v.left)
+            elif isinstance(v, ast.Call) and (dotted(v.func) or "").split(".")[-1] == "full" and len(v.args) >= 2:
+                factors.append(v.args[1])
+            else:
+                return None, None
+        elif isinstance(n, ast.AugAssign) and isinstance(n.target, ast.Name) and n.target.id == name:
+            if not isinstance(n.op, ast.Mult):
+                return None, None
+            first = first or n
+            factors.append(n.value)
+    if n_def != 1 or not factors:
+        return None, None
+    e = factors[0]
+    for f in factors[1:]:
+        e = ast.BinOp(left=e, op=ast.Mult(), right=f)
+    return e, first
+
+
 def smp_weights(prog: Program, res: Result) -> None:
     """stratified(): each drawn nonzero stands for (stored nonzeros / drawn nonzeros) entries and each drawn zero for
-    (all entries - stored nonzeros) / drawn zeros: the weights total the entries they stand for.  Decided as terms over the data's own
-    counts (data.nnz, prod(data.shape)) and the two requested sample counts."""
+    (all entries - stored nonzeros) / drawn zeros: the weights total the entries they stand for.  semistrat(): the second block is drawn from
+    ALL entries (a drawn "zero" may be a stored nonzero; the loss corrects for it), so each of its samples stands for all entries / number
+    drawn.  Decided as terms over the data's own counts (data.nnz, prod(data.shape)) and the two requested sample counts."""
     import sympy as sp
     from . import alg_common as A
-    fi = prog.func("gcp.samplers.stratified")
-    ps = fi.params()
-    if len(ps) < 4:
-        res.undecided("SMP-wt", fi.short, "weights of a stratified sample total the entries they stand for", prog.loc(fi), "signature changed")
-        return
-    data, n_nz, n_z = ps[0], ps[2], ps[3]
     NNZ, TOT, a, b = sp.Symbol("NNZ", positive=True), sp.Symbol("TOT", positive=True), sp.Symbol("a", positive=True), sp.Symbol("b", positive=True)
-    roles = {f"{data}.nnz": NNZ, f"np.prod({data}.shape)": TOT, f"prod({data}.shape)": TOT, f"math.prod({data}.shape)": TOT, n_nz: a, n_z: b}
-    # the two weight vectors: the operands of the concatenation that is returned last
-    wnames = None
-    for r in ast.walk(fi.node):
-        if isinstance(r, ast.Return) and isinstance(r.value, ast.Tuple) and len(r.value.elts) == 3:
-            w = fi.resolve(r.value.elts[2])
-            if isinstance(w, ast.Call) and (dotted(w.func) or "").split(".")[-1] in ("concatenate", "hstack") and w.args \
-                    and isinstance(w.args[0], (ast.Tuple, ast.List)) and len(w.args[0].elts) == 2 and all(isinstance(x, ast.Name) for x in w.args[0].elts):
-                wnames = [x.id for x in w.args[0].elts]
-    if wnames is None:
-        res.undecided("SMP-wt", fi.short, "weights of a stratified sample total the entries they stand for", prog.loc(fi), "weight vectors not identified")
-        return
-    for nm, want, what in ((wnames[0], NNZ / a, "drawn nonzero"), (wnames[1], (TOT - NNZ) / b, "drawn zero")):
-        desc = f"every {what} carries weight {want} (entries it stands for / number drawn)"
-        scal = [n for n in ast.walk(fi.node) if isinstance(n, ast.AugAssign) and isinstance(n.op, ast.Mult) and isinstance(n.target, ast.Name) and n.target.id == nm]
-        if len(scal) != 1:
-            res.undecided("SMP-wt", fi.short, desc, prog.loc(fi), f"{len(scal)} scalings of `{nm}`")
+    for fname, pos, second in (("stratified", (0, 2, 3), (TOT - NNZ) / b), ("semistrat", (0, 1, 2), TOT / b)):
+        fi = prog.func(f"gcp.samplers.{fname}")
+        ps = fi.params()
+        head = f"weights of a {fname} sample total the entries they stand for"
+        if len(ps) <= max(pos):
+            res.undecided("SMP-wt", fi.short, head, prog.loc(fi), "signature changed")
             continue
-        ok, how = A.formula_equals(fi.resolve(scal[0].value), roles, want)
-        if ok is True:
-            res.ok("SMP-wt", fi.short, desc, prog.loc(fi, scal[0]), how)
-        elif ok is False:
-            res.bad("SMP-wt", fi.short, desc, prog.loc(fi, scal[0]), how + ": the weights no longer total the entries of the stratum, so every "
-                    "function / gradient estimate built from the sample is biased")
-        else:
-            res.undecided("SMP-wt", fi.short, desc, prog.loc(fi, scal[0]), how)
+        data, n_nz, n_z = (ps[i] for i in pos)
+        roles = {f"{data}.nnz": NNZ, f"np.prod({data}.shape)": TOT, f"prod({data}.shape)": TOT, f"math.prod({data}.shape)": TOT, n_nz: a, n_z: b}
+        # the two weight vectors: the operands of the concatenation that is returned last
+        wnames = None
+        sd = fi.single_defs()
+        for r in ast.walk(fi.node):
+            if isinstance(r, ast.Return) and isinstance(r.value, ast.Tuple) and len(r.value.elts) == 3:
+                w = r.value.elts[2]
+                if isinstance(w, ast.Name) and w.id in sd:
+                    w = sd[w.id]            # one step only: the operands of the concatenation keep their names
+                if isinstance(w, ast.Call) and (dotted(w.func) or "").split(".")[-1] in ("concatenate", "hstack") and w.args \
+                        and isinstance(w.args[0], (ast.Tuple, ast.List)) and len(w.args[0].elts) == 2 and all(isinstance(x, ast.Name) for x in w.args[0].elts):
+                    wnames = [x.id for x in w.args[0].elts]
+        if wnames is None:
+            res.undecided("SMP-wt", fi.short, head, prog.loc(fi), "weight vectors not identified")
+            continue
+        for nm, want, what in ((wnames[0], NNZ / a, "drawn nonzero"), (wnames[1], second, "sample of the second block")):
+            desc = f"every {what} carries weight {want} (entries it stands for / number drawn)"
+            coef, at = _weight_coefficient(fi, nm)
+            if coef is None:
+                res.undecided("SMP-wt", fi.short, desc, prog.loc(fi), f"`{nm}` is not a vector of ones times a scalar")
+                continue
+            ok, how = A.formula_equals(fi.resolve(coef), roles, want)
+            if ok is True:
+                res.ok("SMP-wt", fi.short, desc, prog.loc(fi, at), how)
+            elif ok is False:
+                res.bad("SMP-wt", fi.short, desc, prog.loc(fi, at), how + ": the weights no longer total the entries of the stratum, so every "
+                        "function / gradient estimate built from the sample is biased")
+            else:
+                res.undecided("SMP-wt", fi.short, desc, prog.loc(fi, at), how)
 
 
 def smp_lin(prog: Program, res: Result) -> None:
